@@ -2,11 +2,18 @@
 
 Clauses
   response    one LTI filter, one frequency: |H_lib - B(w)/A(w)| <= eps (a-priori
-              rounding bound), nan exactly where the denominator is exactly zero
-  containers  freq_response over list/tuple/set/frozenset/deque/Stream/generator/
-              range/map/keyword: kind kept, applied per element
+              rounding bound), nan exactly where the denominator is exactly zero; one case
+              in seven has its numerator built from its own denominator (the same polynomial,
+              a multiple, the mirror image = all-pass section, mirror image scaled / delayed)
+  containers  freq_response over list/tuple/set/frozenset/deque/Stream/Stream subclass/
+              StreamTeeHub (two users)/generator/range/map/filter/keyword, every kind also
+              empty: kind kept, applied per element
   lists       CascadeFilter -> product, ParallelFilter -> sum (nested, empty,
-              raw-coefficient members); all-FIR lists also against the time domain
+              raw-coefficient members, plain-number members such as the direct path of
+              ParallelFilter(1, g)); the response follows the list when a member is replaced
+              in place and when the list is grown / shrunk / rebuilt by list operations
+              (append, extend, +=, *=, del, clear, reverse, list + [m], list * 2, 2 * list);
+              all-FIR lists also against the time domain
   null_pole   lists of integer sections with exact nulls / exact poles at w = 0 (nulls and
               poles at pi), in both orders, nested and as a branch of a bank: product / sum
               of the member responses, nan as soon as one member's denominator vanishes
@@ -32,8 +39,11 @@ from audiolazy import (ZFilter, LinearFilter, CascadeFilter, ParallelFilter,
 ID = "C12"
 RULE = ("cases = (numerator, denominator built from root sections kept away from "
         "the unit circle / integer denominators / denominators with an exact "
-        "root at z=1, construction route, frequency or frequency container) drawn "
-        "by Hypothesis; oracle = independent fsum evaluation of "
+        "root at z=1, numerator random or tied to the denominator (same / scaled / mirrored / "
+        "mirrored and scaled / mirrored and delayed), construction route, frequency or frequency "
+        "container) drawn by Hypothesis; filter-list members are filters, raw coefficient lists, plain "
+        "numbers (half of them 1 or 0 in their int / float / bool / Fraction spellings) or nested lists, "
+        "optionally changed by one list operation after the first response; oracle = independent fsum evaluation of "
         "sum b_k e^{-jkw} / sum a_k e^{-jkw} with the a-priori rounding bound eps, "
         "products / sums of it for cascades / parallel banks (null_pole: members are "
         "integer sections (1 - z^-R, (1 - z^-1) q(z), zero gains, 1/((1 - z^-1) q(z)), "
@@ -49,7 +59,10 @@ ASSUMPTIONS = [
   "eps = 64*(order+2)*2^-53*(sum|b|/|A| + sum|b|*sum|a|/|A|^2); time-domain and dft tolerances are the "
   "same kind of a-priori bound on sum|b| resp. sum|x| (measured head-room reported in the module)",
   "frequency containers are the kinds the elementwise decorator documents (list, tuple, set, frozenset, "
-  "deque, Stream, generator, range, map); bare list_iterator objects are not supported by it and not generated",
+  "deque, Stream and its subclasses incl. StreamTeeHub, generator, range, map, filter); bare list_iterator "
+  "objects are not supported by it and not generated",
+  "a plain number is a legal member of a filter list (FilterList.callables casts it to a constant-gain "
+  "LinearFilter): its response is that number at every frequency",
   "empty CascadeFilter / ParallelFilter are filters (their __call__ is the identity / the zero signal), so "
   "their responses are the empty product 1 / the empty sum 0",
   "nan may be returned as a float or a complex nan",
@@ -218,12 +231,48 @@ def _filt_w(draw, **kw):
   return spec, w
 
 
+TIES = ["same", "scaled", "mirror", "mirror", "mirror-scaled", "mirror-delayed", "mirror-delayed"]
+_tie_gain = st.sampled_from([2, -1, 0.5, -3, 4.0, -0.25, 1.5])
+
+
+@st.composite
+def _tied_w(draw):
+  """A filter whose numerator is built from its own denominator: the same polynomial (H = 1
+  wherever A != 0 - and nan, not 1, where A vanishes), a multiple of it, its mirror image
+  (all-pass section, |H| = 1), the mirror image scaled, or delayed by one or two more samples.
+  Coefficients are whatever these constructions give; the oracle takes them as data."""
+  fam, a = draw(_den(5).filter(lambda t: t[1] is not None and len([c for c in t[1] if c != 0]) > 1))
+  tie = draw(st.sampled_from(TIES))
+  if tie == "same":
+    b = list(a)
+  elif tie == "scaled":
+    g = draw(_tie_gain)
+    b = [g * c for c in a]
+  else:
+    b = list(a[::-1])
+    if tie == "mirror-scaled":
+      g = draw(_tie_gain)
+      b = [g * c for c in b]
+    elif tie == "mirror-delayed":
+      b = [0] * draw(st.integers(1, 2)) + b
+  spec = {"b": b, "a": a, "fam": fam, "tie": tie,
+          "route": draw(st.sampled_from(("Z", "Z", "L", "dict", "expr")))}
+  if fam == "unit":
+    w = draw(st.one_of(st.sampled_from([0, 0.0]), st.floats(.05, TWO_PI - .05), _w_special))
+  else:
+    w = draw(_w)
+  return spec, w
+
+
 def flabels(spec, w=None):
   a = den_of(spec)
   iir = len([c for c in a if c != 0]) > 1
   out = ["IIR" if iir else "FIR", "route:" + spec["route"], "den:" + spec["fam"]]
   if a[0] == 0 or (spec["route"] == "dict" and spec["b"][0] == 0 and iir):
     out.append("leading zero")
+  if spec.get("tie"):
+    out.append("numerator tied to the denominator")
+    out.append("tie:" + spec["tie"])
   if w is not None:
     if w == 0:
       out.append("w=0")
@@ -241,7 +290,8 @@ def order_of(spec):
 # ---------------------------------------------------------------- response
 
 def strat_response(tier):
-  return _filt_w().map(lambda p: {"f": p[0], "w": p[1]})
+  # one_of drops repeated strategy *objects*: four distinct _filt_w() to one _tied_w()
+  return st.one_of(_filt_w(), _filt_w(), _filt_w(), _filt_w(), _tied_w()).map(lambda p: {"f": p[0], "w": p[1]})
 
 
 def run_response(case):
@@ -267,13 +317,23 @@ def run_response(case):
                                              "err<=0.1 eps" if ratio <= .1 else "err>0.1 eps"))
   if kind != "nan" and not any(spec["b"]):
     labels.append("zero numerator")
+  if spec.get("tie") and kind == "nan":
+    labels.append("tied and nan")
   return {"nontrivial": order_of(spec) >= 2 and w != 0, "labels": labels}
 
 
 # ---------------------------------------------------------------- containers
 
 KINDS = ["list", "tuple", "set", "frozenset", "deque", "stream", "generator",
-         "map", "range", "kw_list", "kw_scalar", "kw_stream"]
+         "map", "range", "kw_list", "kw_scalar", "kw_stream",
+         # a filter object (one of the lazy iterator kinds answered with a generator, like map),
+         # an instance of a Stream subclass, a StreamTeeHub (thub(freqs, 2) given to two calls: each
+         # call gets its own copy of the frequencies), a hub given by keyword
+         "filter", "stream_sub", "thub", "kw_thub"]
+
+
+class FreqStream(Stream):
+  """A Stream subclass (frequencies arrive as one, e.g. from a user's own Stream type)."""
 
 
 @st.composite
@@ -283,11 +343,13 @@ def strat_containers_(draw):
   wel = st.one_of(st.sampled_from([0, 0.0]), _w) if spec["fam"] == "unit" else _w
   if kind == "range":
     start = draw(st.integers(0, 5))
-    ws = [start, draw(st.integers(start + 1, 7))]
+    ws = [start, draw(st.integers(start, 7))]         # range(start, start): no frequency at all
   elif kind == "kw_scalar":
     ws = [draw(wel)]
   else:
-    ws = draw(st.lists(wel, min_size=0 if kind in ("list", "tuple", "stream") else 1, max_size=5))
+    ws = draw(st.lists(wel, min_size=1, max_size=5))
+    if draw(st.sampled_from([False] * 6 + [True])):     # every kind of container may be empty
+      ws = []
   target = draw(st.sampled_from(["single", "single", "cascade", "parallel"]))
   other = draw(_filt(maxb=3, maxroots=2)) if target != "single" else None
   return {"f": spec, "kind": kind, "ws": ws, "target": target, "other": other}
@@ -310,6 +372,12 @@ def make_container(kind, ws):
     return deque(ws)
   if kind in ("stream", "kw_stream"):
     return Stream(list(ws))
+  if kind == "stream_sub":
+    return FreqStream(list(ws))
+  if kind in ("thub", "kw_thub"):
+    return audiolazy.thub(Stream(list(ws)) if len(ws) % 2 else list(ws), 2)
+  if kind == "filter":
+    return filter(lambda x: True, list(ws))
   if kind == "generator":
     return (x for x in list(ws))
   if kind == "map":
@@ -353,6 +421,15 @@ def run_containers(case):
   want_type = {"list": list, "kw_list": list, "tuple": tuple, "set": set, "frozenset": frozenset,
                "deque": deque, "stream": Stream, "kw_stream": Stream,
                "generator": types.GeneratorType}.get(kind)
+  if kind in ("stream_sub", "thub", "kw_thub") and not isinstance(res, Stream):
+    raise Violation("frequencies given as %s (a Stream), response container is %s" % (kind, type(res).__name__))
+  if kind in ("thub", "kw_thub"):
+    # the second user of the hub gets the same frequencies, whatever the first one has read so far
+    res2 = filt.freq_response(freq=arg) if kind == "kw_thub" else filt.freq_response(arg)
+    first, second = list(res), list(res2)
+    if len(first) != len(second) or not all(same_value(x, y) for x, y in zip(first, second)):
+      raise Violation("the two users of thub(%r, 2) got %r and %r" % (freqs, first, second))
+    res = first
   if want_type is not None and type(res) is not want_type:
     raise Violation("frequencies given as %s, response container is %s" % (kind, type(res).__name__))
   if want_type is None and (isinstance(res, (complex, float, int)) or not hasattr(res, "__iter__")):
@@ -372,6 +449,8 @@ def run_containers(case):
         raise Violation("element %d of the %s response is %r, freq_response(%r) alone is %r"
                         % (i, kind, g, freqs[i], s))
   labels = ["kind:" + kind, "target:" + case["target"], "n=%d" % min(len(freqs), 3)] + flabels(spec)
+  if not freqs and kind not in ("list", "tuple", "stream"):
+    labels.append("empty container of another kind than list / tuple / Stream")
   if any(k == "nan" for k, _, _ in refs):
     labels.append("nan element")
   return {"nontrivial": order_of(spec) >= 2 and any(w != 0 for w in freqs), "labels": labels}
@@ -408,14 +487,33 @@ def combine(kind, parts):
   return "ok", H, eps
 
 
+#: a plain number is a legal member of a filter list (FilterList.callables casts it to
+#: LinearFilter(number), a constant gain): the direct path of ParallelFilter(1, -lowpass), the
+#: gain of CascadeFilter(2, section).  Half of the draws are the neutral element of one of the
+#: two reductions (1 for the product, 0 for the sum) in each of its spellings - neither is
+#: neutral for the *other* list kind.
+_number = st.one_of(
+  st.sampled_from([1, 1.0, True, Fraction(1)]),
+  st.sampled_from([1, 1, 1.0, 0, 0, 0.0, False, -0.0]),
+  st.sampled_from([2, -1, -1.0, 0.5, -3, 8, Fraction(1, 3), Fraction(-5, 2), 0.1]),
+  st.floats(-8, 8, allow_nan=False, allow_subnormal=False))
+
+
+@st.composite
+def _num_member(draw):
+  return {"m": "num", "v": draw(_number)}
+
+
 def _member(depth):
-  leaf = st.one_of(
-    _filt(maxb=4, maxroots=2, routes=("Z", "L", "expr")).map(lambda s: {"m": "filt", "f": s}),
-    _filt(maxb=4, maxroots=2, routes=("Z", "L", "expr")).map(lambda s: {"m": "filt", "f": s}),
-    st.lists(_coef, min_size=1, max_size=4).filter(any).map(lambda c: {"m": "coeffs", "b": c}))
-  if depth == 0:
-    return leaf
-  return st.one_of(leaf, leaf, leaf, _flist(depth - 1))
+  # one_of flattens nested one_of / mapped one_of strategies and drops repeated *objects*, so the
+  # shares are set by building that many distinct single-branch strategies:
+  # filters 3 : raw coefficient lists 2 : plain numbers 3 (: nested lists 3)
+  filt = lambda: _filt(maxb=4, maxroots=2, routes=("Z", "L", "expr")).map(lambda s: {"m": "filt", "f": s})
+  coeffs = lambda: st.lists(_coef, min_size=1, max_size=4).filter(any).map(lambda c: {"m": "coeffs", "b": c})
+  branches = [filt(), filt(), filt(), coeffs(), coeffs(), _num_member(), _num_member(), _num_member()]
+  if depth > 0:
+    branches += [_flist(depth - 1), _flist(depth - 1), _flist(depth - 1)]
+  return st.one_of(*branches)
 
 
 def _flist(depth):
@@ -435,8 +533,71 @@ def strat_lists_(draw):
   ws = draw(st.one_of(wel.map(lambda w: [w]), st.lists(wel, min_size=1, max_size=3)))
   # optionally replace one member in place after the first response has been taken
   # (a filter list is a mutable list: the response must follow its current members)
-  repl = draw(st.one_of(st.none(), st.tuples(st.integers(0, 2), _member(0), st.sampled_from(["setitem", "slice", "pop-insert"]))))
+  # ... or grow / shrink / rebuild the list the way a list is (append, extend, +=, *=, del, clear,
+  # reverse; list + [member], list * 2, 2 * list give a new filter list of the same kind)
+  repl = draw(st.one_of(st.none(), st.tuples(st.integers(0, 2), _member(0), st.sampled_from(REPLACE_HOW)),
+                        st.tuples(st.integers(0, 2), _member(0), st.sampled_from(RESIZE_HOW))))
   return {"fl": fl, "ws": ws, "scalar": len(ws) == 1 and draw(st.booleans()), "replace": repl}
+
+
+REPLACE_HOW = ["setitem", "slice", "pop-insert"]
+RESIZE_HOW = ["append", "extend", "iadd", "insert-front", "imul", "del", "clear", "reverse",
+              "add", "mul", "rmul", "append", "extend", "iadd", "imul", "add", "mul", "rmul", "clear"]
+
+
+def resized_items(items, i, member, how):
+  """The member specifications after the list operation `how` (None: not applicable)."""
+  if how in REPLACE_HOW:
+    return items[:i] + [member] + items[i + 1:] if items else None
+  if how in ("append", "extend", "iadd", "add"):
+    return items + [member]
+  if how == "insert-front":
+    return [member] + items
+  if how in ("imul", "mul", "rmul"):
+    return items * 2 if len(items) <= 3 else None
+  if how == "del":
+    return items[:i] + items[i + 1:] if items else None
+  if how == "clear":
+    return []
+  if how == "reverse":
+    return items[::-1]
+  raise AssertionError(how)
+
+
+def apply_resize(filt, i, new, how):
+  """Performs the list operation on the real filter list; returns the list to ask from now on."""
+  if how == "setitem":
+    filt[i] = new
+  elif how == "slice":
+    filt[i:i + 1] = [new]
+  elif how == "pop-insert":
+    filt.pop(i)
+    filt.insert(i, new)
+  elif how == "append":
+    filt.append(new)
+  elif how == "extend":
+    filt.extend([new])
+  elif how == "iadd":
+    filt += [new]
+  elif how == "insert-front":
+    filt.insert(0, new)
+  elif how == "imul":
+    filt *= 2
+  elif how == "del":
+    del filt[i]
+  elif how == "clear":
+    filt.clear()
+  elif how == "reverse":
+    filt.reverse()
+  elif how == "add":
+    filt = filt + [new]
+  elif how == "mul":
+    filt = filt * 2
+  elif how == "rmul":
+    filt = 2 * filt
+  else:
+    raise AssertionError(how)
+  return filt
 
 
 def strat_lists(tier):
@@ -448,6 +609,8 @@ def build_member(m):
     return build(m["f"])
   if m["m"] == "coeffs":
     return list(m["b"])
+  if m["m"] == "num":
+    return m["v"]
   return build_list(m)
 
 
@@ -477,6 +640,8 @@ def ref_member(m, w):
     return ref_response(m["f"]["b"], den_of(m["f"]), w)
   if m["m"] == "coeffs":
     return ref_response(m["b"], [1], w)
+  if m["m"] == "num":
+    return ref_response([m["v"]], [1], w)
   return ref_list(m, w)
 
 
@@ -491,6 +656,8 @@ def fir_taps(m):
   """Exact numerator (Fractions) of an all-FIR member, None if it has feedback."""
   if m["m"] == "coeffs":
     return [Fraction(c) for c in m["b"]]
+  if m["m"] == "num":
+    return [Fraction(m["v"])]
   if m["m"] == "filt":
     a = den_of(m["f"])
     if len(a) != 1:
@@ -512,6 +679,8 @@ def abs_taps(m):
   """Upper bound of sum|h| computed along the structure (for the tolerance)."""
   if m["m"] == "coeffs":
     return sabs(m["b"])
+  if m["m"] == "num":
+    return float(abs(m["v"]))
   if m["m"] == "filt":
     return sabs(m["f"]["b"]) / abs(den_of(m["f"])[0])
   vals = [abs_taps(x) for x in m["items"]]
@@ -527,6 +696,24 @@ def count_leaves(m):
   if m["m"] in ("cascade", "parallel"):
     return sum(count_leaves(x) for x in m["items"])
   return 1
+
+
+def number_labels(fl, out=None):
+  """Plain-number members, anywhere in the structure: which list kind holds them and whether
+  the number is the neutral element of the other kind's reduction."""
+  out = set() if out is None else out
+  for m in fl["items"]:
+    if m["m"] == "num":
+      out.add("number member")
+      if fl["m"] == "parallel" and m["v"] == 1 and len(fl["items"]) > 1:
+        out.add("unit number as a branch of a bank")
+      if fl["m"] == "cascade" and m["v"] == 0 and len(fl["items"]) > 1:
+        out.add("zero number as a stage of a cascade")
+      if fl["m"] == "parallel" and m["v"] == 0 or fl["m"] == "cascade" and m["v"] == 1:
+        out.add("number neutral for its list")
+    elif m["m"] in ("cascade", "parallel"):
+      number_labels(m, out)
+  return sorted(out)
 
 
 def run_lists(case):
@@ -549,32 +736,36 @@ def run_lists(case):
     labels.append("nested")
   if any(m["m"] == "coeffs" for m in fl["items"]):
     labels.append("raw coefficient member")
+  labels.extend(number_labels(fl))
   if any(k == "nan" for k, _, _ in refs):
     labels.append("nan")
   labels.append("err<=0.1 eps" if worst <= .1 else "err>0.1 eps")
   repl = case.get("replace")
-  if repl is not None and fl["items"]:
+  if repl is not None:
     i, member, how = repl
-    i %= len(fl["items"])
-    fl2 = dict(fl, items=fl["items"][:i] + [member] + fl["items"][i + 1:])
-    ok = True
-    try:
-      refs2 = [ref_list(fl2, w) for w in ws]
-    except Exception:
-      ok = False      # the replacement makes the reference undefined at these frequencies
+    i %= max(1, len(fl["items"]))
+    items2 = resized_items(fl["items"], i, member, how)
+    ok = items2 is not None
+    if ok:
+      fl2 = dict(fl, items=items2)
+      try:
+        refs2 = [ref_list(fl2, w) for w in ws]
+      except Exception:
+        ok = False      # the replacement makes the reference undefined at these frequencies
     if ok and not any(k == "nan" for k, _, _ in refs2):
-      new = build_member(member)
-      if how == "setitem":
-        filt[i] = new
-      elif how == "slice":
-        filt[i:i + 1] = [new]
-      else:
-        filt.pop(i)
-        filt.insert(i, new)
+      cls = type(filt)
+      filt = apply_resize(filt, i, build_member(member), how)
+      if type(filt) is not cls or len(filt) != len(items2):
+        raise Violation("%s after %s: a %s of %d members (expected a %s of %d)"
+                        % (fl["m"], how, type(filt).__name__, len(filt), cls.__name__, len(items2)))
       got2 = [filt.freq_response(w) for w in ws]
       for w, g, (k, r, e) in zip(ws, got2, refs2):
-        check_value(g, k, r, e, "%s after replacing member %d in place (%s) at w=%r" % (fl["m"], i, how, w))
-      labels.append("member replaced in place")
+        check_value(g, k, r, e, "%s after %s (member %d) at w=%r" % (fl["m"], how, i, w))
+      if how in REPLACE_HOW:
+        labels.append("member replaced in place")
+      else:
+        labels.append("list resized / rebuilt by a list operation")
+        labels.append("op:" + how)
       fl, refs, got = fl2, refs2, got2
   # all-FIR structure: the same structure applied to an impulse has this response
   taps = fir_taps(fl)
@@ -1010,14 +1201,22 @@ def run_nullpole(case):
 CLAUSES = [
   Clause("response", strat_response, run_response, quick=5000, thorough=100000,
          floors={"IIR": .2, "FIR": .08, "nan": .01, "w=0": .03, "w=pi": .01,
-                 "leading zero": .01, "route:expr": .05, "route:dict": .05},
+                 "leading zero": .01, "route:expr": .05, "route:dict": .05,
+                 "numerator tied to the denominator": .04, "tie:mirror": .012, "tie:mirror-delayed": .01,
+                 "tie:same": .01, "tied and nan": .004},
          doc="freq_response(w) vs independent evaluation of B/A with the a-priori bound eps; nan iff A == 0 exactly"),
   Clause("containers", strat_containers, run_containers, quick=2500, thorough=30000,
-         floors=dict(("kind:" + k, .02) for k in KINDS),
+         floors=dict([("kind:" + k, .02) for k in KINDS] +
+                     [("empty container of another kind than list / tuple / Stream", .02)]),
          doc="frequency containers: kind preserved, element i == freq_response(w_i), also on cascade/parallel"),
   Clause("lists", strat_lists, run_lists, quick=2500, thorough=30000,
          floors={"cascade": .2, "parallel": .2, "nested": .05, "members=0": .01 if EMPTY_LISTS else 0.,
-                 "all FIR: time domain checked": .02},
+                 "all FIR: time domain checked": .02, "raw coefficient member": .05,
+                 "member replaced in place": .08, "list resized / rebuilt by a list operation": .08,
+                 "op:append": .008, "op:extend": .008, "op:iadd": .008, "op:imul": .002, "op:add": .004,
+                 "op:mul": .002, "op:rmul": .002, "op:clear": .004,
+                 "number member": .08, "unit number as a branch of a bank": .015,
+                 "zero number as a stage of a cascade": .006},
          doc="CascadeFilter response == product, ParallelFilter response == sum of member responses"),
   Clause("null_pole", strat_nullpole, run_nullpole, quick=2500, thorough=30000,
          floors={"null before pole": .06, "pole before null": .06,
